@@ -5,6 +5,7 @@
    implementation's transcript.  Executable only; no proofs here. *)
 From Ice Require Import Base Spec Varint Chunk Postings Crc32 Footer Stored DocValues Dict Container.
 From Ice Require Builder.
+From Ice Require Import Units.
 
 (* ---- parser over a flat list of numbers ---- *)
 Definition P (A : Type) := list N -> option (A * list N).
@@ -55,11 +56,25 @@ Inductive op :=
 | OFooter (slot : N) (file : bytes)
 | OLayout (slot : N) (dvflags : list bool)
 | OContainer (slot : N) (file : bytes)
-| OInterim (b : Batch).
+| OInterim (b : Batch)
+| OUnit (which : N) (script : list cop)
+| OEnum (itrs : list (list (bytes * N))) (script : list eop).
 
 Definition piterop : P iter_op :=
   let%p k := pnum in
   if k =? 0 then pret INext else let%p d := pnum in pret (IAdvance d).
+
+Definition pcop : P cop :=
+  let%p k := pnum in
+  match k with
+  | 0 => let%p a := pnum in let%p b := pnum in pret (CNew a b)
+  | 1 => pret CReset
+  | 2 => let%p a := pnum in let%p b := pnum in pret (CSetChunkSize a b)
+  | 3 => let%p d := pnum in let%p vals := plist pnum in let%p meta := pbytes in
+         let%p data := pbytes in pret (CAdd d vals meta data)
+  | 4 => pret CClose
+  | _ => pret CWrite
+  end.
 
 Definition pop : P op :=
   let%p code := pnum in
@@ -91,6 +106,13 @@ Definition pop : P op :=
   | 21 => let%p s := pnum in let%p fl := plist pbool in pret (OLayout s fl)
   | 22 => let%p s := pnum in let%p b := pbytes in pret (OContainer s b)
   | 23 => let%p b := pbatch in pret (OInterim b)
+  | 24 => let%p sc := plist pcop in pret (OUnit 24 sc)
+  | 25 => let%p sc := plist pcop in pret (OUnit 25 sc)
+  | 26 => let%p sc := plist pcop in pret (OUnit 26 sc)
+  | 27 => let%p its := plist (plist (let%p k := pbytes in let%p v := pnum in pret (k, v))) in
+          let%p sc := plist (let%p k := pnum in
+                             pret (match k with 0 => ECurrent | 1 => ELow | _ => ENext end)) in
+          pret (OEnum its sc)
   | _ => fun _ => None
   end.
 
@@ -338,6 +360,12 @@ Definition step (st : list Slot) (o : op) : list Slot * list N :=
                                          w_list (fun l : ELoc => let '(f, (a, (b0, c))) := l in [f; a; b0; c]) (ep_locs p))
                                       (snd tp)) (snd ft))
                   (Builder.build_postings_model harness_norm (fun _ _ l => l) b))
+  | OUnit which sc =>
+      (* operation scripts on the models of the chunk coders (Units.v) *)
+      (st, if which =? 24 then run_intcoder None sc
+           else if which =? 25 then run_contentcoder None sc
+           else run_doccoder StoredWriter.dc_new sc)
+  | OEnum its sc => (st, run_enum_script its sc)
   | OContainer s file =>
       (* the byte-exact loader models on the real bytes of the file *)
       (st, match parse_footer file with
